@@ -33,7 +33,22 @@ import tempfile
 
 import numpy as np
 
-from harness.common import Ctx, Part, lean_batch_parallel, load_corpus, pmap
+from harness.common import Ctx, Infra, load_corpus, pmap
+from harness.common import lean_batch_parallel as _lean_batch_parallel
+
+
+def lean_batch_parallel(requests: list[dict]) -> list[dict]:
+    """The model driver, retried while another check's `lake build` is relinking the binary."""
+    import time
+
+    for attempt in range(12):
+        try:
+            return _lean_batch_parallel(requests)
+        except Infra:
+            if attempt == 11:
+                raise
+            time.sleep(5)
+    raise Infra("unreachable")
 
 THEOREMS = [
     "IrVerif.Pack.C04_unpack_pack4",
@@ -57,10 +72,42 @@ ASSUMPTIONS = [
     "numpy / ml_dtypes view, astype (two's complement wrap), frombuffer, resize and tofile semantics are "
     "modelled, not verified; they are exercised by the correspondence on every run",
     "little-endian host (the _IS_LITTLE_ENDIAN false branches are not modelled)",
-    "the model follows the repaired code for D20 D21 D22 D44 D45 (fix: commits 90f0973 e7c61b0 98406ca 205afd1 78dfe76)",
+    "the model follows the repaired code for D20 D21 D22 D44 D45 (fix: commits 90f0973 e7c61b0 98406ca 205afd1 78dfe76); "
+    "string tensors (D48 D49 repaired by d8b3378 ee95482) are checked by the oracle only, they are outside the Lean model",
 ]
 
 M64 = (1 << 64) - 1
+
+# The ONNX specification's element types, written down independently of onnx_ir (the oracle and the
+# generators never ask the code under test what a type looks like): code -> (name, bits, numpy name)
+SPEC = {
+    1: ("FLOAT", 32, "float32"), 2: ("UINT8", 8, "uint8"), 3: ("INT8", 8, "int8"), 4: ("UINT16", 16, "uint16"),
+    5: ("INT16", 16, "int16"), 6: ("INT32", 32, "int32"), 7: ("INT64", 64, "int64"), 9: ("BOOL", 8, "bool"),
+    10: ("FLOAT16", 16, "float16"), 11: ("DOUBLE", 64, "float64"), 12: ("UINT32", 32, "uint32"),
+    13: ("UINT64", 64, "uint64"), 14: ("COMPLEX64", 64, "complex64"), 15: ("COMPLEX128", 128, "complex128"),
+    16: ("BFLOAT16", 16, "bfloat16"), 17: ("FLOAT8E4M3FN", 8, "float8_e4m3fn"), 18: ("FLOAT8E4M3FNUZ", 8, "float8_e4m3fnuz"),
+    19: ("FLOAT8E5M2", 8, "float8_e5m2"), 20: ("FLOAT8E5M2FNUZ", 8, "float8_e5m2fnuz"), 21: ("UINT4", 4, "uint4"),
+    22: ("INT4", 4, "int4"), 23: ("FLOAT4E2M1", 4, "float4_e2m1fn"), 24: ("FLOAT8E8M0", 8, "float8_e8m0fnu"),
+    25: ("UINT2", 2, "uint2"), 26: ("INT2", 2, "int2"),
+}
+TORCH_NAME = {
+    "FLOAT": "float32", "UINT8": "uint8", "INT8": "int8", "UINT16": "uint16", "INT16": "int16", "INT32": "int32",
+    "INT64": "int64", "BOOL": "bool", "FLOAT16": "float16", "DOUBLE": "float64", "UINT32": "uint32", "UINT64": "uint64",
+    "COMPLEX64": "complex64", "COMPLEX128": "complex128", "BFLOAT16": "bfloat16", "FLOAT8E4M3FN": "float8_e4m3fn",
+    "FLOAT8E4M3FNUZ": "float8_e4m3fnuz", "FLOAT8E5M2": "float8_e5m2", "FLOAT8E5M2FNUZ": "float8_e5m2fnuz",
+    "FLOAT8E8M0": "float8_e8m0fnu", "UINT2": "uint2", "INT2": "int2",
+}
+
+
+def spec_np(code: int):
+    import ml_dtypes
+
+    nm = SPEC[code][2]
+    return np.dtype(getattr(ml_dtypes, nm)) if hasattr(ml_dtypes, nm) and not hasattr(np, nm) else np.dtype(nm)
+
+
+def is_int(name: str) -> bool:
+    return name.startswith(("INT", "UINT"))
 SHAPES = [[], [0], [1], [3], [5], [2, 3], [1, 1, 1, 1, 7]]
 UINT = {1: np.uint8, 2: np.uint16, 4: np.uint32, 8: np.uint64}
 
@@ -287,9 +334,20 @@ def observe(make, dests, workdir, order: int = 0, fresh: bool = False) -> dict:
 # --------------------------------------------------------------------------- representations
 
 
+class _ArrayCompat:
+    """An array-compatible object that is not an ndarray (only `shape` and `__array__`)."""
+
+    def __init__(self, a):
+        self._a = a
+        self.shape = a.shape
+
+    def __array__(self, dtype=None, copy=None):
+        return self._a if dtype is None else self._a.astype(dtype)
+
+
 def int32_field(d, bw, xs, alt, salt):
     """ONNX spec encoding of the elements in int32_data (alt: congruent non-canonical values)."""
-    name = d.name
+    name = SPEC[int(d)][0]
     if bw in (2, 4):
         ys = list(ref_bytes(bw, xs))
         if alt:  # the packed byte as a signed int8 value / shifted by 256
@@ -310,10 +368,10 @@ def build_reprs(ir, d, dims, xs, idx, workdir, torch_ok):
     import onnx
     from onnx_ir import serde
 
-    bw = d.bitwidth
-    n = len(xs)
     code = int(d)
-    npdt = d.numpy()
+    nm, bw, _ = SPEC[code]
+    n = len(xs)
+    npdt = spec_np(code)
     shape = ir.Shape(dims)
     rb = ref_bytes(bw, xs)
     out = []
@@ -326,12 +384,14 @@ def build_reprs(ir, d, dims, xs, idx, workdir, torch_ok):
     add("array", lambda: ir.Tensor(native, dtype=d), {"k": "array", "d": code, "dims": dims, "elems": units_of(native)})
     add("array-nodtype", lambda: ir.Tensor(native), {"k": "array", "d": code, "dims": dims, "elems": units_of(native)})
     add("ir.tensor(array)", lambda: ir.tensor(native, dtype=d), {"k": "array", "d": code, "dims": dims, "elems": units_of(native)})
-    if d.name in ("BFLOAT16", "FLOAT8E4M3FN", "FLOAT8E4M3FNUZ", "FLOAT8E5M2", "FLOAT8E5M2FNUZ", "FLOAT8E8M0", "UINT4", "FLOAT4E2M1", "UINT2", "INT4", "INT2"):
+    if nm in ("BFLOAT16", "FLOAT8E4M3FN", "FLOAT8E4M3FNUZ", "FLOAT8E5M2", "FLOAT8E5M2FNUZ", "FLOAT8E8M0", "UINT4", "FLOAT4E2M1", "UINT2", "INT4", "INT2"):
         u = np.array(xs, dtype=np.uint16 if bw == 16 else np.uint8).reshape(dims)
         add("array-uintbits", lambda: ir.Tensor(u, dtype=d), {"k": "array", "d": code, "dims": dims, "elems": units_of(u)})
-    if d.name in ("INT4", "INT2"):
+    if nm in ("INT4", "INT2"):
         s8 = np.array([signed(x, bw) for x in xs], dtype=np.int8).reshape(dims)  # sign-extended storage
         add("array-int8signext", lambda: ir.Tensor(s8, dtype=d), {"k": "array", "d": code, "dims": dims, "elems": units_of(s8)})
+    wrapped = _ArrayCompat(native)  # not an ndarray: Tensor keeps it as is and goes through __array__
+    add("array-compat", lambda: ir.Tensor(wrapped, dtype=d), {"k": "array", "d": code, "dims": dims, "elems": units_of(native)})
     if len(dims) >= 2:
         # non-contiguous storage: a transposed Fortran-ordered buffer with the same logical content
         nc = np.asfortranarray(native)
@@ -339,8 +399,8 @@ def build_reprs(ir, d, dims, xs, idx, workdir, torch_ok):
     if dims == []:
         sc = native[()]
         add("array-npscalar", lambda: ir.Tensor(sc, dtype=d), {"k": "array", "d": code, "dims": dims, "elems": units_of(native)})
-    if d.is_integer() and n <= 8:
-        vals = [signed(x, bw) if d.is_signed() else x for x in xs]
+    if is_int(nm) and n <= 8:
+        vals = [signed(x, bw) if nm.startswith("INT") else x for x in xs]
         nested = np.array(vals, dtype=object).reshape(dims).tolist()
         add("ir.tensor(list)", lambda: ir.tensor(nested, dtype=d), {"k": "array", "d": code, "dims": dims, "elems": units_of(native)})
 
@@ -348,6 +408,11 @@ def build_reprs(ir, d, dims, xs, idx, workdir, torch_ok):
     if bw in (2, 4):
         pk = np.frombuffer(rb, dtype=np.uint8).copy()
         add("packed", lambda: ir.PackedTensor(pk, d, shape=dims), {"k": "packed", "d": code, "dims": dims, "raw": list(rb)})
+        if torch_ok:
+            import torch
+
+            pkt = torch.from_numpy(pk.copy())  # an array-compatible, DLPack-capable raw value
+            add("packed-torch", lambda: ir.PackedTensor(pkt, d, shape=dims), {"k": "packed", "d": code, "dims": dims, "raw": list(rb)})
         pk8 = pk.view(np.int8)
         add("packed-int8", lambda: ir.PackedTensor(pk8, d, shape=ir.Shape(dims)), {"k": "packed", "d": code, "dims": dims, "raw": list(rb)})
 
@@ -363,7 +428,6 @@ def build_reprs(ir, d, dims, xs, idx, workdir, torch_ok):
     tp = tp_base()
     tp.raw_data = rb
     protos.append(("raw_data", tp))
-    nm = d.name
     if nm in ("BFLOAT16", "BOOL", "FLOAT16", "FLOAT4E2M1", "FLOAT8E4M3FN", "FLOAT8E4M3FNUZ", "FLOAT8E5M2", "FLOAT8E5M2FNUZ",
               "FLOAT8E8M0", "INT16", "INT32", "INT2", "INT4", "INT8", "UINT16", "UINT2", "UINT4", "UINT8"):
         tp = tp_base()
@@ -438,10 +502,7 @@ def build_reprs(ir, d, dims, xs, idx, workdir, torch_ok):
 
         from onnx_ir import tensor_adapters
 
-        try:
-            tdt = tensor_adapters.to_torch_dtype(d)
-        except Exception:
-            tdt = None
+        tdt = getattr(torch, TORCH_NAME[nm], None) if nm in TORCH_NAME else None
         if tdt is not None:
             if nm == "BFLOAT16" or nm.startswith("FLOAT8") or bw < 8:
                 base_np = np.array(xs, dtype=np.uint16 if bw == 16 else np.uint8).reshape(dims)
@@ -483,14 +544,14 @@ def oracle(ir, name, d, dims, xs, o, dests, fails, torch_ok):
     """The property itself on the real object `o` (observations) for a LEGAL representation."""
     from onnx import numpy_helper
 
-    bw = d.bitwidth
+    dname, bw, _ = SPEC[int(d)]
     n = len(xs)
     rb = list(ref_bytes(bw, xs))
     kind = kind_of(name)
     sz = "size0" if n == 0 else "n>0"
 
     def fail(obs, what, extra=""):
-        fails.append((f"{kind}.{obs}:bw{bw}:{sz}:{what}{extra}", obs, f"{name} {d.name}{dims}: {obs} {what}"))
+        fails.append((f"{kind}.{obs}:bw{bw}:{sz}:{what}{extra}", obs, f"{name} {dname}{dims}: {obs} {what}"))
 
     if "_ctor" in o:
         fail("ctor", "raised")
@@ -508,7 +569,7 @@ def oracle(ir, name, d, dims, xs, o, dests, fails, torch_ok):
             fail("numpy", "wrong-bits")
         if o["_npshape"] != dims:
             fail("numpy", "wrong-shape")
-        if o["_npdtype"] != d.numpy().name:
+        if o["_npdtype"] != spec_np(int(d)).name:
             fail("numpy", "wrong-npdtype")
     if o["tobytes"] == "raised":
         fail("tobytes", "raised")
@@ -566,6 +627,7 @@ def work_logical(item: dict) -> list:
     from onnx_ir import serde
 
     d = ir.DataType(item["d"])
+    sbw = SPEC[item["d"]][1]
     dims, xs, idx = item["dims"], item["xs"], item["idx"]
     recs = []
     torch_ok = torch_available()
@@ -573,8 +635,8 @@ def work_logical(item: dict) -> list:
         reprs = build_reprs(ir, d, dims, xs, idx, workdir, torch_ok)
         # ONNX reference encoder agrees with the spec-level encoder of this file
         try:
-            ref = numpy_helper.from_array(arr_from_bits(d.numpy(), dims, xs), "x")
-            ref_ok = list(ref.raw_data) == list(ref_bytes(d.bitwidth, xs)) and ref.data_type == int(d)
+            ref = numpy_helper.from_array(arr_from_bits(spec_np(item["d"]), dims, xs), "x")
+            ref_ok = list(ref.raw_data) == list(ref_bytes(sbw, xs)) and ref.data_type == item["d"]
         except Exception:
             ref_ok = None  # element type unknown to the installed onnx
         for j, (name, make, model, legal) in enumerate(reprs):
@@ -587,12 +649,12 @@ def work_logical(item: dict) -> list:
             if legal:
                 oracle(ir, name, d, dims, xs, o, dests, fails, torch_ok)
                 if ref_ok is False and j == 0:
-                    fails.append((f"reference.encode:bw{d.bitwidth}", "reference", "onnx.numpy_helper.from_array differs from the spec-level encoder"))
+                    fails.append((f"reference.encode:bw{sbw}", "reference", "onnx.numpy_helper.from_array differs from the spec-level encoder"))
             # typed-field protos built by this file are legal: the ONNX reference decodes them to the same bits
             if name.startswith("proto:") and "alt" not in name:
                 try:
                     back = numpy_helper.to_array(make().raw)
-                    if [u & ((1 << d.bitwidth) - 1) for u in units_of(back)] != [int(x) for x in xs]:
+                    if [u & ((1 << sbw) - 1) for u in units_of(back)] != [int(x) for x in xs]:
                         fails.append((f"reference.decode:{name}", "reference", "onnx.numpy_helper.to_array decodes the generated proto differently"))
                 except Exception:
                     pass
@@ -629,11 +691,9 @@ def gen_logical(ctx: Ctx, ir) -> list[dict]:
     """Logical tensors: every dtype x every shape; all bit patterns of <= 8-bit types are placed."""
     items = []
     rng = ctx.rng
-    dtypes = [d for d in ir.DataType if d.name not in ("UNDEFINED", "STRING")]
     total = sum(_prod(s) for s in SHAPES)
-    for d in dtypes:
-        bw = d.bitwidth
-        if d.name == "BOOL":
+    for code, (dname, bw, _npn) in SPEC.items():
+        if dname == "BOOL":
             pool_rounds = [[0, 1] * 12, [1, 0, 0, 1, 1, 1, 0] * 4]
         elif bw <= 8:
             allp = list(range(1 << bw))
@@ -643,15 +703,14 @@ def gen_logical(ctx: Ctx, ir) -> list[dict]:
             for _ in range(ctx.pick(1, 6)):
                 pool_rounds.append([rng.randrange(1 << bw) for _ in range(total)])
         else:
-            half = bw if bw <= 64 else 64
             def pat(kind):
-                if bw <= 64 and d.name != "COMPLEX64":
+                if bw <= 64 and dname != "COMPLEX64":
                     return rng.choice(SPECIAL[bw]) if kind == "special" else rng.getrandbits(bw)
-                h = 32 if d.name == "COMPLEX64" else 64
+                h = 32 if dname == "COMPLEX64" else 64
                 a = rng.choice(SPECIAL[h]) if kind == "special" or rng.random() < 0.3 else rng.getrandbits(h)
                 b = rng.choice(SPECIAL[h]) if kind == "special" or rng.random() < 0.3 else rng.getrandbits(h)
                 return a | (b << h)
-            sp = SPECIAL[bw] if (bw <= 64 and d.name != "COMPLEX64") else None
+            sp = SPECIAL[bw] if (bw <= 64 and dname != "COMPLEX64") else None
             pool_rounds = []
             if sp:
                 seq = sp * 3
@@ -668,7 +727,7 @@ def gen_logical(ctx: Ctx, ir) -> list[dict]:
                 k += n
                 if len(xs) < n:
                     xs = xs + [0] * (n - len(xs))
-                items.append({"d": int(d), "dims": list(s), "xs": xs, "round": r})
+                items.append({"d": code, "dims": list(s), "xs": xs, "round": r})
     return items
 
 
@@ -676,7 +735,7 @@ def gen_edge(ctx: Ctx, ir) -> list[dict]:
     """Illegal / edge inputs for model-vs-implementation comparison only (no oracle)."""
     rng = ctx.rng
     edge = []
-    codes = [int(d) for d in ir.DataType]
+    codes = [0, 8] + list(SPEC)
     for _ in range(ctx.pick(1500, 12000)):
         kind = rng.choice(["proto", "proto", "proto", "external", "packed", "torch"])
         d = rng.choice(codes + [27, 40])
@@ -707,7 +766,7 @@ def gen_edge(ctx: Ctx, ir) -> list[dict]:
         elif kind == "external":
             if d > 26 or d in (0, 8):
                 d = rng.choice([1, 2, 21, 22, 25, 26, 10, 7, 14])
-            bw = ir.DataType(d).bitwidth
+            bw = SPEC[d][1]
             nb = _nbytes(n, bw)
             flen = rng.choice([0, nb, nb, nb + 3, max(0, nb - 1), nb + 8, 1])
             file = None if rng.random() < 0.05 else [rng.randrange(256) for _ in range(flen)]
@@ -717,7 +776,7 @@ def gen_edge(ctx: Ctx, ir) -> list[dict]:
         elif kind == "packed":
             if d > 26:
                 d = 21
-            bw = ir.DataType(d).bitwidth if d not in (0, 8) else 8
+            bw = SPEC[d][1] if d not in (0, 8) else 8
             nb = _nbytes(n, bw if bw in (2, 4) else 4)
             ln = rng.choice([nb, nb, nb, nb + 1, max(0, nb - 1), n])
             edge.append({"edge": "packed", "repr": {"k": "packed", "d": d, "dims": dims, "raw": [rng.randrange(256) for _ in range(ln)]}})
@@ -805,7 +864,7 @@ def real_tables(ir) -> dict:
     def opt(f):
         try:
             return f()
-        except TypeError:
+        except Exception:
             return None
 
     per = []
@@ -857,33 +916,44 @@ def check_tables(ctx: Ctx, ir) -> None:
             ctx.disagree(f"element-type table '{key}': Lean literal != _enums", {"table": key}, diff, None)
     ctx.exhaustive_scopes.append("element-type tables: every entry of _BITWIDTH_MAP, _NP_TYPE_TO_DATA_TYPE, _DATA_TYPE_TO_SHORT_NAME, "
                                  "the 27 enum members, is_floating_point/is_integer/is_signed and the torch dtype map")
-    # oracle on the real tables (independent of the model)
+    # oracle on the real tables (independent of the model): against the spec table of this file, the
+    # onnx package, and the mutual-consistency claims of the property
     shorts = set()
     ref = dict(onnx.TensorProto.DataType.items())
-    for d in ir.DataType:
-        if ref.get(d.name) != int(d):
-            ctx.fail(f"tables.member:{d.name}", "enum member differs from onnx.TensorProto.DataType", {"d": d.name})
-        if d.name in ("UNDEFINED", "STRING"):
-            continue
-        if d.itemsize * 8 != d.bitwidth:
-            ctx.fail(f"tables.itemsize:{d.name}", "itemsize*8 != bitwidth", {"d": d.name})
-        npd = d.numpy()
-        if ir.DataType.from_numpy(npd) != d:
-            ctx.fail(f"tables.numpy:{d.name}", "from_numpy(numpy()) != identity", {"d": d.name})
-        want = d.bitwidth // 8 if d.bitwidth >= 8 else 1
-        if npd.itemsize != want:
-            ctx.fail(f"tables.npitemsize:{d.name}", "numpy itemsize inconsistent with bitwidth", {"d": d.name})
-        if ir.DataType.from_short_name(d.short_name()) != d or d.short_name() in shorts:
-            ctx.fail(f"tables.short:{d.name}", "short names not invertible", {"d": d.name})
-        shorts.add(d.short_name())
+
+    def chk(sig, what, f):
         try:
-            if onnx.helper.tensor_dtype_to_np_dtype(int(d)) != npd:
-                ctx.fail(f"tables.onnxnp:{d.name}", "numpy type differs from onnx.helper.tensor_dtype_to_np_dtype", {"d": d.name})
+            ok = f()
+        except Exception as e:  # a table lookup raised
+            ok = False
+            what = f"{what} (raised {type(e).__name__})"
+        if not ok:
+            ctx.fail(sig, what, {"table-entry": sig})
+
+    for d in ir.DataType:
+        nm = d.name
+        chk(f"tables.member:{nm}", "enum member differs from onnx.TensorProto.DataType", lambda: ref.get(nm) == int(d))
+        chk(f"tables.short:{nm}", "short names not invertible", lambda: ir.DataType.from_short_name(d.short_name()) == d and d.short_name() not in shorts)
+        try:
+            shorts.add(d.short_name())
+        except Exception:
+            pass
+        if nm in ("UNDEFINED", "STRING"):
+            continue
+        _sn, sbw, snp = SPEC[int(d)]
+        chk(f"tables.bitwidth:{nm}", "bit width differs from the ONNX specification", lambda: d.bitwidth == sbw)
+        chk(f"tables.itemsize:{nm}", "itemsize*8 != bitwidth", lambda: d.itemsize * 8 == d.bitwidth)
+        chk(f"tables.numpy:{nm}", "numpy type wrong or from_numpy(numpy()) != identity",
+            lambda: d.numpy() == spec_np(int(d)) and ir.DataType.from_numpy(d.numpy()) == d)
+        chk(f"tables.npitemsize:{nm}", "numpy itemsize inconsistent with bitwidth",
+            lambda: d.numpy().itemsize == (d.bitwidth // 8 if d.bitwidth >= 8 else 1))
+        try:
+            onnx_np = onnx.helper.tensor_dtype_to_np_dtype(int(d))
         except Exception:
             ctx.count("tables.onnx-helper-unknown-type")
-    for d in ir.DataType:  # the remaining two members
-        if ir.DataType.from_short_name(d.short_name()) != d:
-            ctx.fail(f"tables.short:{d.name}", "short names not invertible", {"d": d.name})
+            onnx_np = None
+        if onnx_np is not None:
+            chk(f"tables.onnxnp:{nm}", "numpy type differs from onnx.helper.tensor_dtype_to_np_dtype", lambda: onnx_np == d.numpy())
 
 
 # --------------------------------------------------------------------------- pack/unpack functions
@@ -955,6 +1025,67 @@ def check_pack_functions(ctx: Ctx) -> None:
             ctx.fail("pack2-len", "packed length != nbytes", {"xs": xs, "got": impl})
 
 
+# --------------------------------------------------------------------------- string tensors (oracle only)
+
+
+def check_strings(ctx: Ctx, ir) -> None:
+    """String tensors have no byte form (tobytes raises by design) and are outside the Lean model:
+    every representation must report STRING, the shape, and equal element values (oracle only)."""
+    import onnx
+    from onnx_ir import serde
+
+    pool = [b"", b"a", b"abc", "\u00e9\u4e2d".encode(), b"\xff\xfe", b"a\x00", b"\x00", b"\xff\x00\x00", b"x" * 40, b"tail\x00\x00"]
+    rng = ctx.rng
+    for rnd in range(ctx.pick(6, 40)):
+        for dims in SHAPES:
+            n = _prod(dims)
+            vals = [pool[(rnd * 7 + i * 3 + len(dims)) % len(pool)] if rnd < 3 else rng.choice(pool) for i in range(n)]
+            has_nul = any(v.endswith(b"\x00") for v in vals)
+            tp = onnx.TensorProto()
+            tp.data_type = 8
+            tp.dims.extend(dims)
+            tp.string_data.extend(vals)
+            obj = np.empty(n, dtype=object)
+            obj[:] = vals
+            obj = obj.reshape(dims)
+            reps = {
+                "StringTensor(list)": lambda: ir.StringTensor(list(vals), shape=ir.Shape(dims)),
+                "StringTensor(object array)": lambda: ir.StringTensor(obj),
+                "deserialize(proto)": lambda: serde.deserialize_tensor(tp),
+                "ir.tensor(proto)": lambda: ir.tensor(tp),
+                "TensorProtoTensor": lambda: serde.TensorProtoTensor(tp),
+                "lazy>deserialize(proto)": lambda: ir.LazyTensor(lambda: serde.deserialize_tensor(tp), dtype=ir.DataType.STRING, shape=ir.Shape(dims)),
+                "roundtrip": lambda: serde.deserialize_tensor(serde.serialize_tensor(serde.deserialize_tensor(tp))),
+            }
+            for name, make in reps.items():
+                case = {"string": True, "dims": dims, "values": [v.hex() for v in vals], "repr": name}
+                ctx.case(["string", name, dims, case["values"]], nontrivial=n > 0, dtype="STRING", representation="string:" + name, shape=str(dims))
+                nul = ":trailing-nul" if has_nul else ""
+                try:
+                    t = make()
+                    if int(t.dtype) != 8 or [int(x) for x in t.shape.numpy()] != dims:
+                        ctx.fail(f"string.dtype-shape:{name}", "string tensor reports wrong dtype/shape", case)
+                    a = t.numpy()
+                    got = [bytes(x) if not isinstance(x, str) else x.encode() for x in np.asarray(a).reshape(-1).tolist()]
+                    if list(a.shape) != dims:
+                        ctx.fail(f"string.numpy-shape:{name}", "numpy() has the wrong shape", case)
+                    elif got != vals:
+                        ctx.fail(f"string.numpy{nul}:{name}", f"numpy() element values differ from the stored strings: {got[:3]}", case)
+                    if hasattr(t, "string_data") and list(t.string_data()) != vals:
+                        ctx.fail(f"string.string_data:{name}", "string_data() differs", case)
+                    if name != "TensorProtoTensor":
+                        sp = serde.serialize_tensor(t)
+                        if list(sp.string_data) != vals or list(sp.dims) != dims or sp.data_type != 8:
+                            ctx.fail(f"string.serialize:{name}", "serialized string_data differs", case)
+                    try:
+                        t.tobytes()
+                        ctx.fail(f"string.tobytes:{name}", "tobytes() of a string tensor did not raise", case)
+                    except (ValueError, TypeError):
+                        pass
+                except Exception as e:
+                    ctx.fail(f"string.raised{nul}:{name}:{type(e).__name__}", "string tensor representation raised", case)
+
+
 # --------------------------------------------------------------------------- run
 
 
@@ -991,14 +1122,14 @@ def process_records(ctx: Ctx, recs: list, outs_iter) -> None:
 
     for rec in recs:
         item, name = rec["item"], rec["name"]
-        d = ir.DataType(item["d"])
+        dname = SPEC[item["d"]][0]
         model_obs = [next(outs_iter) for _ in rec["reqs"]]
         case = {"d": item["d"], "dims": item["dims"], "xs": item["xs"], "idx": item["idx"], "repr": name}
         ctx.case(
             [name, item["d"], item["dims"], item["xs"], rec["dests"]],
             nontrivial=len(item["xs"]) > 0,
-            sample={"dtype": d.name, "dims": item["dims"], "bits": item["xs"][:4], "representation": name, "destinations": rec["dests"]},
-            dtype=d.name,
+            sample={"dtype": dname, "dims": item["dims"], "bits": item["xs"][:4], "representation": name, "destinations": rec["dests"]},
+            dtype=dname,
             representation=kind_of(name).split(">")[-1] + (":" + name.split(":")[1].split("-")[0] if name.startswith("proto:") else ""),
             lazy=name.startswith("lazy>"),
             shape=str(item["dims"]),
@@ -1014,7 +1145,7 @@ def process_records(ctx: Ctx, recs: list, outs_iter) -> None:
             if obs in known_obs:
                 ctx.count("disagreements-explained-by-known-finding")
                 continue
-            ctx.disagree(f"{name} {d.name}{item['dims']}: {obs} model != implementation", case, m, i)
+            ctx.disagree(f"{name} {dname}{item['dims']}: {obs} model != implementation", case, m, i)
         rt = rec["rt"]
         if rt is not None:
             mo = next(outs_iter)
@@ -1031,7 +1162,7 @@ def process_records(ctx: Ctx, recs: list, outs_iter) -> None:
                 for obs, m, i in compare_obs([mo], rt["impl"], [], []):
                     if obs in known_obs:
                         continue
-                    ctx.disagree(f"deserialize(serialize({name})) {d.name}{item['dims']}: {obs} model != implementation", case, m, i)
+                    ctx.disagree(f"deserialize(serialize({name})) {dname}{item['dims']}: {obs} model != implementation", case, m, i)
 
 
 def run_items(ctx: Ctx, items: list) -> None:
@@ -1065,6 +1196,7 @@ def run(ctx: Ctx) -> None:
         run_items(ctx, [dict(c) for c in corpus])
         ctx.count("corpus_cases", len(corpus))
     check_tables(ctx, ir)
+    check_strings(ctx, ir)
     check_pack_functions(ctx)
     items = gen_logical(ctx, ir)
     run_items(ctx, items)
@@ -1086,13 +1218,13 @@ def run(ctx: Ctx) -> None:
         for obs, mm, ii in compare_obs([mo], impl, [], []):
             if obs == "serialize" and m["k"] == "proto":
                 continue  # metadata/name are copied verbatim; covered by the legal stream
-            if m["k"] == "external" and ir.DataType(m["d"]).bitwidth == 2 and obs in ("numpy", "tobytes") and known_sig(ctx, f"external.{obs}:bw2:n>0:raised") and ii == "raised":
+            if m["k"] == "external" and SPEC.get(m["d"], ("", 0, ""))[1] == 2 and obs in ("numpy", "tobytes") and known_sig(ctx, f"external.{obs}:bw2:n>0:raised") and ii == "raised":
                 ctx.count("disagreements-explained-by-known-finding")
                 continue
             if m["k"] == "external" and obs == "tobytes" and _prod(m["dims"]) == 0 and known_sig(ctx, "external.tobytes:bw8:size0:raised") and ii == "raised":
                 ctx.count("disagreements-explained-by-known-finding")
                 continue
-            if m["k"] == "packed" and ir.DataType(m["d"]).bitwidth == 2 and obs == "numpy" and known_sig(ctx, "packed.numpy:bw2:n>0:wrong-bits"):
+            if m["k"] == "packed" and SPEC.get(m["d"], ("", 0, ""))[1] == 2 and obs == "numpy" and known_sig(ctx, "packed.numpy:bw2:n>0:wrong-bits"):
                 ctx.count("disagreements-explained-by-known-finding")
                 continue
             ctx.disagree(f"edge {m['k']}: {obs} model != implementation", m, mm, ii)
@@ -1101,7 +1233,11 @@ def run(ctx: Ctx) -> None:
 
 def replay(ctx: Ctx, obj: dict) -> None:
     case = obj.get("case") or obj
-    if isinstance(case, dict) and "d" in case and "dims" in case and "xs" in case:
+    if isinstance(case, dict) and case.get("string"):
+        import onnx_ir as ir
+
+        check_strings(ctx, ir)
+    elif isinstance(case, dict) and "d" in case and "dims" in case and "xs" in case:
         run_items(ctx, [{"d": case["d"], "dims": case["dims"], "xs": case["xs"], "idx": case.get("idx", 0)}])
     else:
         run(ctx)
